@@ -12,8 +12,7 @@ From Coq Require Import Reals List Arith Bool ZArith QArith Qreals Ring Lia Lra.
 From Coquelicot Require Import Coquelicot.
 From PA Require Import model.Poly model.AbelPoly model.Angular
   proofs.PolyRing proofs.AbelPolyAlg proofs.AbelPolyInt proofs.PolyTop proofs.PolyPiecewise
-  proofs.AbelPolyEval proofs.AngularProofs proofs.AngularR proofs.ApproxGaussianTail
-  gen.ApproxGaussianInst.
+  proofs.AbelPolyEval proofs.AngularProofs proofs.AngularR proofs.ApproxGaussianTail.
 Import ListNotations.
 Open Scope R_scope.
 
@@ -156,21 +155,9 @@ Theorem C10_angular_legendre_table :
 Proof. exact (conj leg_table_ok leg_at_one). Qed.
 Print Assumptions C10_angular_legendre_table.
 
-(* ---- ApproxGaussian: per-instance goals (generated from the ranges the
-   implementation returns now; gen/ApproxGaussianInst.v): every segment of
-   ApproxGaussian(tol).ranges for the 7 tabulated tolerances stays within
-   1.01 tol of exp(-x^2/2), and so does the tail beyond the last node ---- *)
-Theorem C10_approx_gaussian_instances : AG_all.
-Proof. exact AG_all_ok. Qed.
-Print Assumptions C10_approx_gaussian_instances.
-
-(* ... but not for every tol: for tol = 0.0187 a segment of the ranges the
-   implementation returns deviates by more than 1.04 tol (finding
-   C10:approx-gaussian-exceeds-tol; the node placement uses an estimate) *)
-Theorem C10_approx_gaussian_tol_refuted : AG_refuted.
-Proof. exact AG_refuted_ok. Qed.
-Print Assumptions C10_approx_gaussian_tol_refuted.
-
+(* ---- ApproxGaussian: the per-instance goals (every segment of the ranges the
+   implementation returns, 7 tabulated tolerances, and the refutation at
+   tol = 0.0187) are in proofs/C10Instances.v; here the general tail lemma ---- *)
 Theorem C10_approx_gaussian_tail : forall xN x, 0 <= xN <= Rabs x ->
   exp (- (x * x) / 2) <= exp (- (xN * xN) / 2).
 Proof. exact gauss_tail. Qed.
